@@ -928,7 +928,6 @@ func checkWindow(e *Env, p *load.Program) {
 	}
 }
 
-
 // indexInCountedLoop: the instruction indexes the slice a counted loop ranges over with an expression that stays in
 // range for every iteration: i (0 <= i < len) or len-1-i.
 func indexInCountedLoop(in ssa.Instruction) (string, bool) {
